@@ -3,6 +3,7 @@ import ACModel.Props.C17
 import ACModel.Props.C09
 import ACModel.Model.Pipeline
 import ACModel.Proofs.GroupedList
+import ACModel.Proofs.Pipeline
 /-
   C08 — fit ends in a coherent fitted object or a clean AssertionError
 
@@ -342,6 +343,156 @@ theorem catOrder_WF (provided : Option GL) (rows : Pipeline.Rows) (minFreq : Rat
         · cases he
 
 
+/-! ## The categorical pipeline never fails with anything but an AssertionError -/
+
+theorem group_error_is_assertion {g : GL} (h : g.WF') (d k : Val) (e : Err) (he : (g.group d k).2 = some e) :
+    ∃ m, e = Err.assertion m := by
+  rcases GL.group_outcome h d k with ⟨hdk, hmiss, _, _⟩ | ⟨_, hnone⟩
+  · unfold GL.group at he
+    simp only [hdk, if_false] at he
+    by_cases hd : d ∉ g.lst
+    · simp only [hd, not_false_eq_true, if_true] at he
+      injection he with he; exact ⟨_, he.symm⟩
+    · have hk : k ∉ g.lst := by
+        rcases hmiss with h1 | h1
+        · exact absurd h1 hd
+        · exact h1
+      simp only [hd, if_false, hk, not_false_eq_true, if_true] at he
+      injection he with he; exact ⟨_, he.symm⟩
+  · rw [hnone] at he; cases he
+
+theorem groupList_error_is_assertion : ∀ (ds : List Val) (g : GL), g.WF' → ∀ (k : Val) (e : Err),
+    (g.groupList ds k).2 = some e → ∃ m, e = Err.assertion m := by
+  intro ds
+  induction ds with
+  | nil => intro g _ k e he; simp [GL.groupList] at he
+  | cons d t ih =>
+    intro g h k e he
+    unfold GL.groupList at he
+    cases hg : g.group d k with
+    | mk g' err =>
+      rw [hg] at he
+      cases err with
+      | none =>
+        simp only at he
+        have hwf : g'.WF' := by have := GL.group_WF' h d k; rw [hg] at this; exact this
+        exact ih g' hwf k e he
+      | some e' =>
+        simp only at he
+        injection he with he
+        subst he
+        exact group_error_is_assertion h d k e' (by rw [hg])
+
+theorem sortBy_error_is_assertion (g : GL) (o : List Val) (e : Err) (h : g.sortBy o = .error e) : ∃ m, e = Err.assertion m := by
+  unfold GL.sortBy at h
+  split at h
+  · injection h with h; exact ⟨_, h.symm⟩
+  · split at h
+    · injection h with h; exact ⟨_, h.symm⟩
+    · unfold GL.ofDict at h
+      split at h
+      · injection h with h; exact ⟨_, h.symm⟩
+      · cases h
+
+/-- the order `CategoricalDiscretizer._prepare_data` starts from -/
+def catG0 (provided : Option GL) (rows : Pipeline.Rows) : GL :=
+  match provided with
+  | some g => g
+  | none => GL.ofList (Pipeline.uniques rows)
+
+theorem catPrepare_some (provided : Option GL) (rows : Pipeline.Rows) (strNan strDefault : String) :
+    Pipeline.catPrepare provided rows strNan strDefault = Pipeline.catPrepare (some (catG0 provided rows)) rows strNan strDefault := by
+  cases provided <;> rfl
+
+theorem catPrepare_error (g0 : GL) (rows : Pipeline.Rows) (strNan strDefault : String) (e : Err)
+    (h : Pipeline.catPrepare (some g0) rows strNan strDefault = .error e) : ∃ m, e = Err.assertion m := by
+  simp only [Pipeline.catPrepare] at h
+  split at h
+  · injection h with h; exact ⟨_, h.symm⟩
+  · cases h
+
+theorem catPrepare_ok (g0 : GL) (rows : Pipeline.Rows) (strNan strDefault : String) (p : GL × Pipeline.Rows)
+    (hwf : g0.WF') (hdef : Val.str strDefault ∉ g0.values) (hmark : strNan ≠ strDefault)
+    (h : Pipeline.catPrepare (some g0) rows strNan strDefault = .ok p) : p.1.WF' ∧ Val.str strDefault ∉ p.1.values := by
+  simp only [Pipeline.catPrepare] at h
+  split at h
+  · cases h
+  · injection h with h
+    rw [← h]
+    simp only
+    split
+    · rename_i hc
+      simp only [Bool.and_eq_true, decide_eq_true_eq] at hc
+      refine ⟨GL.append_WF' hwf _ hc.2, ?_⟩
+      intro hm
+      unfold GL.append GL.values at hm
+      simp only at hm
+      obtain ⟨kv, hkv, hv⟩ := Dict.mem_allValues.1 hm
+      rcases (Dict.mem_set hwf.2.1).1 hkv with h' | h'
+      · exact hdef (Dict.mem_allValues.2 ⟨kv, h'.1, hv⟩)
+      · rw [h'] at hv
+        simp only [List.mem_singleton, Val.str.injEq] at hv
+        exact hmark hv.symm
+    · exact ⟨hwf, hdef⟩
+
+/-- **`CategoricalDiscretizer` (prepare + fit of one feature) either completes or raises an
+    AssertionError** - for every sample, every `min_freq` and every user-supplied order that is a
+    well-formed partition not yet holding the default marker. -/
+theorem catOrder_error_is_assertion (provided : Option GL) (rows : Pipeline.Rows) (minFreq : Rat) (strNan strDefault : String)
+    (hprov : ∀ g, provided = some g → g.WF ∧ Val.str strDefault ∉ g.values)
+    (hmark : strNan ≠ strDefault) (hobs : Val.str strDefault ∉ Pipeline.uniques rows)
+    (e : Err) (he : Pipeline.catOrder provided rows minFreq strNan strDefault = .error e) : ∃ m, e = Err.assertion m := by
+  have hg0 : (catG0 provided rows).WF' ∧ Val.str strDefault ∉ (catG0 provided rows).values := by
+    unfold catG0
+    cases hp : provided with
+    | some g => exact ⟨(GL.wf_iff g).1 (hprov g hp).1, (hprov g hp).2⟩
+    | none =>
+      have hn := PipelineLemmas.nodup_uniques rows
+      refine ⟨(GL.wf_iff _).1 (GL.C13_ctor_list_WF hn), ?_⟩
+      simp only
+      rw [values_ofList _ hn]; exact hobs
+  unfold Pipeline.catOrder at he
+  rw [catPrepare_some] at he
+  cases h1 : Pipeline.catPrepare (some (catG0 provided rows)) rows strNan strDefault with
+  | error e1 =>
+    rw [h1] at he
+    simp only [Except.bind] at he
+    injection he with he; subst he
+    exact catPrepare_error _ rows strNan strDefault e1 h1
+  | ok p1 =>
+    rw [h1] at he
+    simp only [Except.bind] at he
+    have hp1 := catPrepare_ok _ rows strNan strDefault p1 hg0.1 hg0.2 hmark h1
+    cases h2 : Pipeline.catGroupRare p1.1 p1.2 (Pipeline.catToGroup p1.1 p1.2 minFreq strNan) strDefault with
+    | error e2 =>
+      rw [h2] at he
+      simp only at he
+      injection he with he; subst he
+      unfold Pipeline.catGroupRare at h2
+      split at h2
+      · cases hgl : (p1.1.append (.str strDefault)).groupList (Pipeline.catToGroup p1.1 p1.2 minFreq strNan) (.str strDefault) with
+        | mk g' err =>
+          rw [hgl] at h2
+          cases err with
+          | none => cases h2
+          | some e' =>
+            simp only at h2
+            injection h2 with h2; subst h2
+            exact groupList_error_is_assertion _ _ (GL.append_WF' hp1.1 _ hp1.2) _ e' (by rw [hgl])
+      · cases h2
+    | ok p2 =>
+      rw [h2] at he
+      simp only at he
+      unfold Pipeline.catSort at he
+      dsimp only at he
+      split at he
+      · injection he with he; exact ⟨_, he.symm⟩
+      · split at he
+        · cases he
+        · rename_i e3 hs
+          injection he with he; subst he
+          exact sortBy_error_is_assertion _ _ _ hs
+
 -- the pipeline theorems are not vacuous: two over-represented values give the boundaries 0, 1, +inf; the empty last
 -- bucket is rare, so the feature goes through the merging loop and `convert_to_values`: +inf absorbs the bucket of 1
 example : (Pipeline.quantOrderQ [(0, 5, 3), (1, 5, 1)] 0 2 (1/2) "__NAN__").toOption.map (fun g => (g.lst, g.content)) =
@@ -350,5 +501,8 @@ example : (Pipeline.quantOrderQ [(0, 5, 3), (1, 5, 1)] 0 2 (1/2) "__NAN__").toOp
 example : (Pipeline.catOrder none [(some (.str "a"), 1), (some (.str "b"), 0), (some (.str "a"), 0), (none, 1),
       (some (.str "c"), 1), (some (.str "a"), 1), (some (.str "b"), 0), (some (.str "a"), 0)] (1/5) "__NAN__" "__OTHER__").toOption.map
       (fun r => (r.grouped, r.order.lst)) =
-    some ([.str "c"], [.str "b", .str "a", .str "__OTHER__", .str "__NAN__"]) := by decide +kernel
+    some ([.str "c"], [.str "b", .str "a", .str "__OTHER__", .str "__NAN__"]) := by decide +kernel-- ... and a value the user's order does not know is refused with an AssertionError (the hypotheses of catOrder_error_is_assertion hold)
+example : Pipeline.catOrder (some (GL.ofList [.str "a", .str "b"])) [(some (.str "a"), 1), (some (.str "q"), 0)] (1/5) "__NAN__" "__OTHER__" =
+    .error (Err.assertion "Unexpected value") := by decide +kernel
+example : (GL.ofList [Val.str "a", .str "b"]).WF ∧ Val.str "__OTHER__" ∉ (GL.ofList [Val.str "a", .str "b"]).values := by decide
 end C08
